@@ -188,7 +188,7 @@ func (i *IRCServer) VerifApply(msg *robust.Message) (replies []*robust.Message, 
 		} else {
 			ircmsg := irc.ParseMessage(msg.Data)
 			reply := i.ProcessMessage(msg, ircmsg)
-			i.SetLastProcessed(robust.Id{Id: msg.Session.Id})
+			i.SetLastProcessed(robust.Id{Id: msg.Id.Id})
 			replies = reply.Messages
 			i.MaybeDeleteSession(msg.Session)
 		}
